@@ -462,7 +462,7 @@ class OpaqueString(Plugin):
         return True
     def is_cstr(self, node):
         t = node.get('type', {}).get('qualType', '')
-        return bool(re.match(r'^const char ?(\*|\[\d*\])$', t.strip()))
+        return bool(re.match(r'^const char ?(\*( ?const)?|\[\d*\])$', t.strip()))
     def operator_call(self, unit, n, rd, args):
         op = rd.get('name')
         if len(args) == 2 and op in ('operator==', 'operator!='):
